@@ -134,3 +134,40 @@ def standard():
     s1_identity_hash()
     s2_uncache()
     s4_hashable()
+
+
+def s5_xml_parser():
+    """S5: defusedxml.minidom.parseString at utils.node(toParseString=True) -> pure-Python
+    parser model (expat is C).  Symbolic mode only; replay uses expat."""
+    if not SYMBOLIC:
+        return
+    import pyxform.utils as ut
+    from harness import xmlmodel
+
+    ut.parseString = xmlmodel.parse_bytes
+    _mark("S5")
+
+
+def s9_no_instance_boundaries():
+    """S9: instance_expression.find_boundaries (C lexer) -> [] ; sound only for texts that
+    do not contain 'instance(' — harnesses using it bound text length below 9."""
+    if not SYMBOLIC:
+        return
+    import pyxform.parsing.instance_expression as ie
+
+    ie.find_boundaries = lambda xml_text: []
+    _mark("S9")
+
+
+def s10_static_defaults():
+    """S10: default_is_dynamic (C lexer) -> False in the three consuming modules; used only
+    where the default alphabet contains no dynamic-default trigger characters."""
+    if not SYMBOLIC:
+        return
+    import pyxform.question as q
+    import pyxform.survey_element as se
+    import pyxform.xls2json as xj
+
+    for mod in (q, se, xj):
+        mod.default_is_dynamic = lambda element_default, element_type=None: False
+    _mark("S10")
